@@ -43,7 +43,7 @@ def main():
         env = dict(os.environ, PYTHONPATH=wt, PYTHONDONTWRITEBYTECODE="1")
         # the demo may hard-code its author's worktree: run a copy with that path rewritten
         text = open(os.path.join(src, demo)).read()
-        for old in ("/tmp/wt-%s" % prop, "/tmp/wt2-%s" % prop, "/tmp/wt3-%s" % prop, "/tmp/wt4-%s" % prop, "/tmp/wt5-%s" % prop):
+        for old in ("/tmp/wt-%s" % prop, "/tmp/wt2-%s" % prop, "/tmp/wt3-%s" % prop, "/tmp/wt4-%s" % prop, "/tmp/wt5-%s" % prop, "/tmp/wt6-%s" % prop):
             text = text.replace(old, wt)
         dpath = os.path.join(wt, "_verif_demo.py")
         open(dpath, "w").write(text)
